@@ -31,23 +31,32 @@ Parse(bytes) ==
       rows |-> [i \in 1..Len(ps) |-> ps[i].v] \o <<>>,
       nerr |-> Len(sp.rows) - Len(rowlines)]
 SameSeq(a, b) == Len(a) = Len(b) /\ \A i \in 1..Len(a) : JSame(a[i], b[i])
+\* text / csv rows are compared as lines (the values are scalars without line breaks); `hdr` lines of header come first
+IsRaw(r) == r.pipeline \in {"text", "csv"}
+ParseRaw(bytes) ==
+  LET sp == Lines(bytes)
+      rowlines == SelectSeq(sp.rows, LAMBDA ln : ~IsErrLine(ln))
+  IN [ok |-> sp.rest = <<>>, rows |-> rowlines, nerr |-> Len(sp.rows) - Len(rowlines)]
+ParseOut(r, bytes) == IF IsRaw(r) THEN ParseRaw(bytes) ELSE Parse(bytes)
+SameRows(r, a, b) == IF IsRaw(r) THEN a = b ELSE SameSeq(a, b)
 
 CheckNoise(r) ==
-  LET o == Parse(r.out)
+  LET o == ParseOut(r, r.out)
       e == Parse(r.err)
-      b == Parse(r.base)
-      streaming == r.pipeline \in {"plain", "select"}
+      b == ParseOut(r, r.base)
+      hdr == IF IsRaw(r) THEN r.hdr ELSE 0
+      streaming == r.pipeline \in {"plain", "select", "text", "csv"}
   IN IF r.bres # "ok" \/ ~b.ok \/ b.nerr # 0 THEN Flag("MISMATCH", r.case, "the noise-free run failed or reported an error")
      ELSE IF r.pipeline = "plain" /\ Len(b.rows) # Len(r.vals) THEN Flag("MISMATCH", r.case, "the noise-free run does not print one row per value")
      ELSE IF r.policy = "panic" /\ r.regions > 0
           THEN IF r.res # "err" THEN Flag("MISMATCH", r.case, "--on-error=panic did not fail on a malformed stream")
-               ELSE IF streaming /\ (~o.ok \/ ~SameSeq(o.rows, SubSeq(b.rows, 1, r.before)))
+               ELSE IF streaming /\ (~o.ok \/ ~SameRows(r, o.rows, SubSeq(b.rows, 1, r.before + hdr)))
                     THEN Flag("MISMATCH", r.case, <<"panic: rows printed before the failure", Len(o.rows), "expected", r.before>>)
                ELSE IF o.nerr # 0 \/ r.err # <<>> THEN Flag("MISMATCH", r.case, "panic: an error line was written to an output stream")
                ELSE TRUE
      ELSE IF r.res # "ok" THEN Flag("MISMATCH", r.case, "run did not succeed")
      ELSE IF ~o.ok THEN Flag("MISMATCH", r.case, "stdout is not a sequence of rows and error lines")
-     ELSE IF ~SameSeq(o.rows, b.rows) THEN Flag("MISMATCH", r.case, <<"noise changed the rows", Len(o.rows), Len(b.rows)>>)
+     ELSE IF ~SameRows(r, o.rows, b.rows) THEN Flag("MISMATCH", r.case, <<"noise changed the rows", Len(o.rows), Len(b.rows)>>)
      ELSE IF r.policy \in {"ignore", "panic"} /\ (o.nerr # 0 \/ r.err # <<>>) THEN Flag("MISMATCH", r.case, "an error was reported under ignore / on a clean stream")
      ELSE IF r.policy = "stdout" /\ (o.nerr < r.regions \/ r.err # <<>>) THEN Flag("MISMATCH", r.case, <<"stdout policy: error lines", o.nerr, "regions", r.regions>>)
      ELSE IF r.policy = "stderr" /\ (o.nerr # 0 \/ e.nerr < r.regions \/ e.rows # <<>> \/ ~e.ok)
